@@ -2,10 +2,8 @@
    and followed by Print Assumptions (audited by ./check on every run). *)
 From Coq Require Import String Ascii.
 From V.lib Require Import Base.
-From V.c19 Require Import C19Model C19Spec C19InvProofs C19TrackProofs C19DescProofs C19ElngProofs C19ScopeProofs.
+From V.c19 Require Import C19Model C19Spec C19InvProofs C19TrackProofs C19DescProofs C19ElngProofs C19ScopeProofs C19Witness.
 
-Definition avc_parser := str -> option (N * N * (N * N * N)).
-Definition hevc_parser := str -> option (N * N * list N).
 
 (* For EVERY op sequence (any arguments, including calls that return an error or panic; the history stops
    at the first panic), every SPS parser: in the final state the moov children are mvhd, mvex and then the
@@ -53,7 +51,7 @@ Print Assumptions C19_tracks.
 Theorem C19_language_readback :
   forall a b c, lower a = true -> lower b = true -> lower c = true ->
     spec_mdhd_lang [a; b; c] = pack3 a b c /\ get_language (pack3 a b c) = [a; b; c].
-Proof. intros a b c Ha Hb Hc. split; [reflexivity|exact (get_language_pack3 a b c Ha Hb Hc)]. Qed.
+Proof. exact language_readback. Qed.
 Print Assumptions C19_language_readback.
 
 (* SetHEVCDescriptor uses the result of CreateHvcC before looking at err; that nil dereference is not
@@ -242,20 +240,6 @@ Print Assumptions C19_decoded_not_contiguous_refuted.
 (* ------------------------------------------------------------------ the hypotheses are satisfiable *)
 Example C19_elng_hyp : no_nul (BS "zh-Hant") = true /\ (2 <= length (BS "en"))%nat.
 Proof. split; vm_compute; [reflexivity|lia]. Qed.
-
-Definition ex_avc_parse : avc_parser := fun sps => match sps with 103 :: _ => Some (1280, 720, (100, 0, 32)) | _ => None end.
-Definition ex_hevc_parse : hevc_parser := fun sps => match sps with 66 :: _ => Some (960, 540, [0; 0; 2; 536870912; 0; 123; 1; 2; 2]) | _ => None end.
-Definition ex_ops : list op :=
-  [ AddEmptyTrack 180000 (BS "video") (BS "und");
-    SetDesc 0 (DAvc (BS "avc1") [[103; 100; 0; 32]] [[104; 181]] true);
-    AddEmptyTrack 48000 (BS "audio") (BS "en-US");
-    SetDesc 1 (DAac 5 24000);
-    AddEmptyTrack 1000 (BS "stpp") (BS "zh-Hant");
-    SetDesc 2 (DStpp [] [] []);
-    AddEmptyTrack 90000 (BS "video") (BS "swe");
-    SetDesc 3 (DHevc (BS "hvc1") [[64; 1]] [[66; 1; 1]] [[68; 1]] [[78; 1]] true);
-    AddEmptyTrack 48000 (BS "audio") (BS "fil");
-    SetDesc 4 (DEc3 (mkDec3 1133 [mkEc3Sub 0 16 0 0 7 1 1 3])) ].
 
 Example C19_tracks_hyp : N.of_nat (length ex_ops) < 4294967295 /\ ops_valid 0 ex_ops = true.
 Proof. split; vm_compute; reflexivity. Qed.
